@@ -261,12 +261,15 @@ func FuzzPackParser(f *testing.F) {
 		}, data)
 		// Known finding FuzzPackParser:alloc@…idxfile.(*Writer).OnHeader: the idx
 		// writer behind PackfileWriter preallocates `count` entries (56 B each)
-		// from the 4-byte header field. Counts up to 2^24 (<= 0.9 GiB) are run and
-		// judged by the allocation oracle; larger ones would exhaust the 8 GiB
-		// RLIMIT_AS, kill the worker (fatal error: out of memory) and stop the
-		// engine at the same known defect every few hundred executions, so this
-		// one mode skips them (the other modes, whose prealloc is capped, do not).
-		if len(data) >= 12 && string(data[:4]) == "PACK" && binary.BigEndian.Uint32(data[8:12]) > 1<<24 {
+		// from the 4-byte header field. Counts up to 2^21 (117 MiB, already over
+		// the bound for these input sizes) are run and judged by the allocation
+		// oracle; larger ones cost seconds of page faults per execution (the
+		// engine kills a worker whose execution exceeds 10 s of wall clock) and
+		// from ~2^27 exhaust the 8 GiB RLIMIT_AS (fatal error: out of memory),
+		// stopping the engine at the same known defect every few hundred
+		// executions. So this one mode skips them; the other modes, whose
+		// preallocation go-git caps, do not.
+		if len(data) >= 12 && string(data[:4]) == "PACK" && binary.BigEndian.Uint32(data[8:12]) > 1<<21 {
 			skipMode("FuzzPackParser", "fs-update")
 			return
 		}
